@@ -872,7 +872,10 @@ def parse_insn_operand(ctx, insn_name, operand_idx, **kwargs):
     else:
         operand_type = int
 
-    assert operand_type in (str, int)
+    if operand_type not in (str, int):
+        # E.g. an excess operand in the position of a code block ('.repeat 3, 1');
+        # the operand count is reported when the command is compiled
+        operand_type = int
 
     if operand_type is str:
         return long_string(ctx, **kwargs)
